@@ -27,31 +27,73 @@ def _escaping_names(fn):
     return out
 
 
+def _use_position_simple(stmt, use):
+    """True if `use` (a Name node) is reached in `stmt` before anything that could have an effect: it is a direct argument of the
+    statement's top-level call preceded only by names / constants (callee: a plain name or attribute chain), or the whole value."""
+    val = getattr(stmt, "value", None)
+    if val is use:
+        return True
+    if isinstance(val, ast.Call) and not any(isinstance(a, ast.Starred) for a in val.args):
+        if not all(isinstance(x, (ast.Name, ast.Attribute, ast.Load)) for x in ast.walk(val.func)):
+            return False
+        for i, a in enumerate(val.args):
+            if a is use:
+                return all(isinstance(b, (ast.Name, ast.Constant)) for b in val.args[:i])
+    return False
+
+
 def canonicalise(tree):
-    """Behaviour-preserving normalisation applied to every module before any rule looks at it, so that rules see one
-    idiom instead of two:  `t = <expr>` immediately followed by `return t`, where `t` is a plain local that no nested
-    scope can see (so it is dead after the return), becomes `return <expr>` (at the position of the return statement)."""
+    """Behaviour-preserving normalisation applied to every module before any rule looks at it, so that rules see one idiom
+    instead of two.  A single-definition, single-use temporary `t = <expr>` that is consumed by the very next simple statement
+    -- as its whole value (`return t`, `x = t`) or as a leading argument of its top-level call (`x = f(t, ...)`, nothing with
+    an effect evaluated before it) -- is substituted into that statement, provided `t` is a plain local that no nested scope can
+    see.  Positions of the consuming statement are kept."""
     for fn in ast.walk(tree):
         if not isinstance(fn, (ast.FunctionDef, ast.AsyncFunctionDef)):
             continue
-        cnt = None
-        for node in ast.walk(fn):
-            for field in ("body", "orelse", "finalbody"):
-                block = getattr(node, field, None)
-                if not (isinstance(block, list) and len(block) >= 2 and isinstance(block[0], ast.stmt)):
+        esc = None
+        changed = True
+        rounds = 0
+        while changed and rounds < 4:
+            changed = False
+            rounds += 1
+            loads, stores = {}, {}
+            for n in ast.walk(fn):
+                if isinstance(n, ast.Name):
+                    (stores if isinstance(n.ctx, (ast.Store, ast.Del)) else loads).setdefault(n.id, []).append(n)
+            # candidate pairs (definition, consuming next statement, use) per temporary
+            pairs = {}
+            for node in ast.walk(fn):
+                for field in ("body", "orelse", "finalbody"):
+                    block = getattr(node, field, None)
+                    if not (isinstance(block, list) and len(block) >= 2 and isinstance(block[0], ast.stmt)):
+                        continue
+                    for i in range(len(block) - 1):
+                        a, r = block[i], block[i + 1]
+                        if isinstance(a, ast.Assign) and len(a.targets) == 1 and isinstance(a.targets[0], ast.Name) \
+                                and isinstance(r, (ast.Return, ast.Assign, ast.AugAssign, ast.Expr)) and getattr(r, "value", None) is not None:
+                            t = a.targets[0].id
+                            inside = [x for x in ast.walk(r) if isinstance(x, ast.Name) and x.id == t and isinstance(x.ctx, ast.Load)]
+                            if len(inside) == 1 and _use_position_simple(r, inside[0]) \
+                                    and not any(isinstance(x, ast.Name) and x.id == t for x in ast.walk(a.value)):
+                                pairs.setdefault(t, []).append((block, a, r, inside[0]))
+            for t, ps in pairs.items():
+                if esc is None:
+                    esc = _escaping_names(fn)
+                # every definition of t is consumed by exactly the statement that follows it, and t is read nowhere else
+                if t in esc or len(stores.get(t, [])) != len(ps) or len(loads.get(t, [])) != len(ps):
                     continue
-                i = 0
-                while i + 1 < len(block):
-                    a, r = block[i], block[i + 1]
-                    if isinstance(a, ast.Assign) and len(a.targets) == 1 and isinstance(a.targets[0], ast.Name) \
-                            and isinstance(r, ast.Return) and isinstance(r.value, ast.Name) and r.value.id == a.targets[0].id:
-                        if cnt is None:
-                            cnt = _escaping_names(fn)
-                        if a.targets[0].id not in cnt:
-                            r.value = a.value
-                            del block[i]
-                            continue
-                    i += 1
+                if any(isinstance(r, ast.AugAssign) and isinstance(r.target, ast.Name) and r.target.id == t for (_b, _a, r, _u) in ps):
+                    continue
+                for (block, a, r, use) in ps:
+                    if a not in block:
+                        continue
+                    if r.value is use:
+                        r.value = a.value
+                    else:
+                        r.value.args[r.value.args.index(use)] = a.value
+                    block.remove(a)
+                    changed = True
 
 
 class ModuleInfo:
